@@ -322,24 +322,30 @@ func scanTrace(r io.Reader, st *symtab, dump *dumpReq) ([]regionTrace, []string,
 }
 
 var (
-	ctworkOnce sync.Once
-	ctworkBin  string
-	ctworkErr  error
+	ctworkMu   sync.Mutex
+	ctworkBins = map[string]string{}
 )
 
-func buildCtwork() (string, error) {
-	ctworkOnce.Do(func() {
-		out := filepath.Join(scratch, "ctwork")
-		cmd := exec.Command("go", "build", "-tags", "verif", "-o", out, "./cmd/ctwork")
-		cmd.Dir = harnessDir
-		cmd.Env = goEnv()
-		if b, err := cmd.CombinedOutput(); err != nil {
-			ctworkErr = fmt.Errorf("building ctwork: %v\n%s", err, b)
-			return
-		}
-		ctworkBin = out
-	})
-	return ctworkBin, ctworkErr
+// buildCtwork builds the machine-level subject for a build configuration ("" or "purego").
+func buildCtwork(tag string) (string, error) {
+	ctworkMu.Lock()
+	defer ctworkMu.Unlock()
+	if p, ok := ctworkBins[tag]; ok {
+		return p, nil
+	}
+	out := filepath.Join(scratch, "ctwork"+tag)
+	tags := "verif"
+	if tag != "" {
+		tags += "," + tag
+	}
+	cmd := exec.Command("go", "build", "-tags", tags, "-o", out, "./cmd/ctwork")
+	cmd.Dir = harnessDir
+	cmd.Env = goEnv()
+	if b, err := cmd.CombinedOutput(); err != nil {
+		return "", fmt.Errorf("building ctwork: %v\n%s", err, b)
+	}
+	ctworkBins[tag] = out
+	return out, nil
 }
 
 func runLackey(bin, assign string, st *symtab, dump *dumpReq) ([]regionTrace, []string, error) {
@@ -448,7 +454,36 @@ func machineTrace(rc *runCfg, m *merged) error {
 		m.addInconclusive("no machine-level assignments were produced")
 		return nil
 	}
-	bin, err := buildCtwork()
+	if err := machineCompare(rc, m, dir, names, files, ""); err != nil {
+		return err
+	}
+	if rc.tier == "thorough" {
+		// the portable field code under the same tracer, on a subset of the assignments
+		var sub []string
+		for _, f := range files {
+			b := filepath.Base(f)
+			var k int
+			if b == "assign-z1.bin" || b == "assign-z2.bin" {
+				sub = append(sub, f)
+			} else if _, err := fmt.Sscanf(b, "assign-%d.bin", &k); err == nil && k < 24 {
+				sub = append(sub, f)
+			}
+		}
+		return machineCompare(rc, m, dir, names, sub, "purego")
+	}
+	return nil
+}
+
+// machineCompare traces the given assignments with the subject built for one configuration
+// and compares them with the reference assignment.
+func machineCompare(rc *runCfg, m *merged, dir string, names []string, files []string, tag string) error {
+	label := "machine level"
+	cfgName := "default"
+	if tag != "" {
+		label += " (" + tag + ")"
+		cfgName = tag
+	}
+	bin, err := buildCtwork(tag)
 	if err != nil {
 		return err
 	}
@@ -611,7 +646,7 @@ func machineTrace(rc *runCfg, m *merged) error {
 					continue
 				}
 				m.violations = append(m.violations, taggedViolation{Violation: mon.Violation{Case: -1, Kind: "machine-level trace (instruction and memory addresses) depends on secret values",
-					Site: fmt.Sprint(det["symbol"]), Detail: det}, Config: "default", Mode: "machine-trace"})
+					Site: fmt.Sprint(det["symbol"]), Detail: det}, Config: cfgName, Mode: "machine-trace"})
 			}
 		}
 	}
@@ -629,7 +664,7 @@ func machineTrace(rc *runCfg, m *merged) error {
 						continue
 					}
 					m.violations = append(m.violations, taggedViolation{Violation: mon.Violation{Case: -1, Kind: "machine-level trace differs between two points of the literal-zero-X class",
-						Site: fmt.Sprint(det["symbol"]), Detail: det}, Config: "default", Mode: "machine-trace"})
+						Site: fmt.Sprint(det["symbol"]), Detail: det}, Config: cfgName, Mode: "machine-trace"})
 				}
 			}
 		}
@@ -654,16 +689,16 @@ func machineTrace(rc *runCfg, m *merged) error {
 					v.Site, v.Class = "checkInitialized", "point-input-with-all-zero-X-limbs"
 					k1seen++
 				}
-				m.violations = append(m.violations, taggedViolation{Violation: v, Config: "default", Mode: "machine-trace"})
+				m.violations = append(m.violations, taggedViolation{Violation: v, Config: cfgName, Mode: "machine-trace"})
 			}
 		}
-		m.extra["machine level: entry points where the K1 witness (literal-zero X) diverges from the reference"] = k1div
-		m.extra["machine level: of those, re-traced and attributed to checkInitialized"] = k1seen
+		m.extra[label+": entry points where the K1 witness (literal-zero X) diverges from the reference"] = k1div
+		m.extra[label+": of those, re-traced and attributed to checkInitialized"] = k1seen
 	}
-	m.extra["machine level: (assignment, entry point) trace comparisons"] = nCompared
-	m.extra["machine level: assignments traced"] = len(by)
-	m.extra["machine level: records in the reference trace per entry point"] = perOp
-	m.extra["machine level: records compared"] = totalRecords
+	m.extra[label+": (assignment, entry point) trace comparisons"] = nCompared
+	m.extra[label+": assignments traced"] = len(by)
+	m.extra[label+": records in the reference trace per entry point"] = perOp
+	m.extra[label+": records compared"] = totalRecords
 	b, _ := json.Marshal(perOp)
 	_ = b
 	return nil
